@@ -134,4 +134,16 @@ TEXT = {
         'note': COMMON_NOTE,
         'technique': 'TLA+ spec + TLC BFS over (state, block, encoding), conditional replay on the code (G->R)',
     },
+    'C16': {
+        'text': 'Model-based testing from an explicit TLA+ model of the position geometry (spec/GeometryBits.tla): positions '
+                'are (row, digit string) pairs so that all 64-bit heights are representable in TLC; the state graph of the '
+                'cursor machine is generated by TLC (exhaustively for heights 0..8, on boundary and pseudo-random digit '
+                'strings for every height up to 63) and every transition is executed against the exported function it '
+                'models. TLC proves the inverse laws on the model and its agreement with the numeric geometry of '
+                'spec/Forest.tla for small heights.',
+        'design_ref': 'DESIGN.md section 5 (C16)',
+        'note': COMMON_NOTE + ' The numeric value of a position is computed by the harness from the closed formula of the '
+                'property text (row r starts at 2^(R+1) - 2^(R+1-r)).',
+        'technique': 'TLA+ model of a pure function family; TLC state graph turned into one implementation test per transition (G->R)',
+    },
 }
